@@ -108,7 +108,7 @@ def run(ctx):
     if not ok:
         ctx.breakage("translation", "generator short-circuit extraction failed: " + msg)
     runner.prove(ctx, MODULE, THEOREMS, FILES)
-    cases = substcorr.batch(ctx, ctx.n(90, 700), customs=False) + substcorr.open_dict_any_cases(ctx, ctx.n(150, 1500)) + substcorr.untyped_pair_cases(ctx) + substcorr.untyped_edge_cases(ctx) + substcorr.untyped_zoo_cases(ctx) + substcorr.defaulting_dict_subst_cases(ctx) + substcorr.subclass_and_degenerate_cases(ctx) + substcorr.sibling_container_cases(ctx) + substcorr.relaxed_marker_position_cases(ctx) + substcorr.list_window_cases(ctx) + substcorr.float_precision_cases(ctx) + substcorr.many_errors_cases(ctx) + substcorr.list_partial_dict_cases(ctx)
+    cases = substcorr.batch(ctx, ctx.n(90, 700), customs=False) + substcorr.open_dict_any_cases(ctx, ctx.n(150, 1500)) + substcorr.untyped_pair_cases(ctx) + substcorr.untyped_edge_cases(ctx) + substcorr.contains_scan_cases(ctx) + substcorr.untyped_zoo_cases(ctx) + substcorr.defaulting_dict_subst_cases(ctx) + substcorr.subclass_and_degenerate_cases(ctx) + substcorr.sibling_container_cases(ctx) + substcorr.relaxed_marker_position_cases(ctx) + substcorr.list_window_cases(ctx) + substcorr.float_precision_cases(ctx) + substcorr.many_errors_cases(ctx) + substcorr.list_partial_dict_cases(ctx)
     from d42 import schema
     corpus = [(schema.list([..., schema.dict({"a": schema.int, "b": schema.int}), ...]), [{"a": 1}, {"a": 1, "b": 2}]),
               (schema.list([..., schema.dict({"a": schema.int}), ...]), [{"a": 1}, {"a": 2}]),
